@@ -436,11 +436,15 @@ impl<'s> LowerState<'s> {
 
                         // Alternatively, one could pass in the action span
                         // information instead of just the action string.
-                        let span_start = anon_symbols.first().unwrap().1.span;
-
-                        let span_end = anon_symbols.last().unwrap().1.span;
-
-                        let symbols_span = Span(span_start.0, span_end.1);
+                        // (there may be no anonymous symbol at all, e.g. in an empty
+                        // alternative or one whose symbols are all named)
+                        let symbols_span = match (anon_symbols.first(), anon_symbols.last()) {
+                            (Some(first), Some(last)) => Span(first.1.span.0, last.1.span.1),
+                            _ => match (expr.symbols.first(), expr.symbols.last()) {
+                                (Some(first), Some(last)) => Span(first.span.0, last.span.1),
+                                _ => Span(0, 0),
+                            },
+                        };
 
                         return_err!(
                             symbols_span,
